@@ -23,8 +23,8 @@ def gen(seed, tier, focus):
             nr = rng.choice([2, 2, 3, 3, 4]); nw = rng.choice([0, 0, 1, 1, 2])
         else:
             nr = rng.choice([0, 1, 1, 1, 2]); nw = rng.choice([1, 2, 2, 3, 3])
-        res = [(rng.choice([0, 0, 1, 2, 3]), rng.randint(1, 99)) for _ in range(nr)]
-        wai = [rng.choice([0, 1, 2, 3]) for _ in range(nw)]
+        res = [(rng.choice([0, 0, 1, 2, 3, 4, 4, 5]), rng.randint(1, 99)) for _ in range(nr)]
+        wai = [rng.choice([0, 1, 2, 3, 4]) for _ in range(nw)]
         order = list(range(nr + nw)); rng.shuffle(order)
         L = rng.choice([0, 4, 8, 12, 20, 30])
         style = rng.random()
